@@ -84,6 +84,8 @@ pub struct Inner {
     pub last_free_seq: usize,
     pub uaf: u64,
     pub aborted: bool,
+    /// single-threaded run: a held mutex at LOCK_PRE can never be released (leaked lock)
+    pub seq_mode: bool,
 }
 
 pub struct Exec {
@@ -200,6 +202,7 @@ impl Exec {
                 last_free_seq: alloc::free_seq(),
                 uaf: 0,
                 aborted: false,
+                seq_mode: false,
             }),
             cv: Condvar::new(),
         })
@@ -322,6 +325,12 @@ impl Exec {
                 g.trace.push(ev);
             }
             if kind == fv::LOCK_PRE {
+                if g.seq_mode && g.free_run && mutex_locked(args[0]) {
+                    // nobody else exists who could release it: report instead of hanging
+                    g.trace.push(json!({"e": "stuck", "t": tid, "why": "bin mutex is held and no other thread exists"}));
+                    drop(g);
+                    panic!("verif: leaked bin lock");
+                }
                 g.thr[tid].holds.push(args[0]);
                 g.thr[tid].lock_events += 1;
             }
